@@ -8,12 +8,14 @@
    Each case is exported to walk_cases.ndjson as
        [add |-> catalogue indices of S, roots |-> indices of R, start |-> index,
         pred |-> what the A layer says about the result of the walk AS CODED (DfsCoded of
-                 WalkImpl.tla): {} or the violated clauses - a prediction, never a verdict]
+                 WalkDfs.tla): {} or the violated clauses - a prediction, never a verdict;
+        old  |-> the same for the walk as coded before the fix d112422 (DfsPreFix)]
    The harness builds the real graph, runs WalkChains / WalkChainsAsync and records
    observations that Trace_Walk.tla judges.
 
    Design-level obligations checked here on every case:
-     FixedRefines   the walk with the proposed fix returns Required <= result <= Permitted
+     CodedOK        the walk as coded (with the current-node test) returns
+                    Required <= result <= Permitted without duplicates
      Sandwich       Required \subseteq Permitted
    (the driver summarises the predicted deviations of the coded walk from the exported file).   *)
 EXTENDS WalkDfs, Json
@@ -45,27 +47,28 @@ LineCases ==
 
 AllCases == GenCases \cup LineCases
 
-Pred(c) ==
+OldPred(c) ==
   LET E  == EdgesOf(c.add, c.roots)
       st == StartRec(c.start, c.add, c.roots)
-  IN WalkReasons(E, st, SeqOfSet(DfsCoded(E, st)))
+  IN WalkReasons(E, st, SeqOfSet(DfsPreFix(E, st)))
 
-FixedOK(c) ==
+Pred(c) ==
   LET E  == EdgesOf(c.add, c.roots)
       st == StartRec(c.start, c.add, c.roots)
       perm == Permitted(E, st)
       req == Required(E, st)
-  IN /\ WalkReasons2(E, st, SeqOfSet(DfsFixed(E, st)), perm, req) = {}
-     /\ req \subseteq perm
+  IN WalkReasons2(E, st, SeqOfSet(DfsCoded(E, st)), perm, req)
+     \cup (IF req \subseteq perm THEN {} ELSE {"required-not-permitted"})
 
 Export(c) == [add |-> SeqOfSet(c.add), roots |-> SeqOfSet(c.roots), start |-> c.start,
-              pred |-> SeqOfSet(Pred(c))]
+              pred |-> SeqOfSet(Pred(c)), old |-> SeqOfSet(OldPred(c))]
 
 CaseSeq == SeqOfSet(AllCases)
 
 \* unique-issuer assumption behind IssuerOf (holds for ideal signatures without key aliases)
 ASSUME \A c \in AllCases : \A n \in c.add : Cardinality(Cands(Cat(n), CertsOf(c.add))) <= 1
-ASSUME \A c \in AllCases : FixedOK(c) \/ PrintT(<<"FIXED-MODEL-FAILS", c>>)
+\* (a case on which the coded model leaves the A layer shows up as a non-empty pred; the
+\*  driver reports it as a design-level prediction)
 ASSUME ndJsonSerialize("graph_catalog.ndjson", Catalog)
 ASSUME ndJsonSerialize("walk_cases.ndjson", [i \in 1..Len(CaseSeq) |-> Export(CaseSeq[i])])
 ASSUME PrintT(<<"CASES", Len(CaseSeq)>>)
